@@ -367,16 +367,24 @@ CLAIMED = {
         "that first offending token (or, when it is a scanner error token, the text and line the scanner recorded) - and "
         "C02_read_trichotomy: every read of a byte string within the nesting limit has exactly one of three outcomes - "
         "success with the denoted configuration, a semantic error, a syntax error at the first token that cannot continue "
-        "a derivation. What remains a correspondence "
-        "matter is that grammar.c's LALR automaton (with default reductions) reports that same token: tied on every run "
-        "by exhaustive enumeration of all viable token-kind prefixes (to length 5 quick / 7 thorough) with every one-token "
+        "a derivation. (7) THE COMPILED LALR(1) TABLES: tools/gen_grammar.py re-extracts on every run the tables of lib/grammar.c "
+        "and the semantic action of every rule (classified by its text) into gen/GrammarTables.v; LalrEngine.v transcribes "
+        "bison's driver (yyparse) over them; C02_lalr_equiv (LalrFacts.v, simulation by mutual induction with every "
+        "automaton fact evaluated from the generated tables) proves that for every token list with its stopping token, "
+        "every root group and both override settings the table-driven engine gives exactly the answer of the "
+        "recursive-descent model - outcome, error kind, tree, error position, tokens read - within 4*length+1 steps; so "
+        "C02_lalr_accept_iff: the compiled tables accept exactly the derivable, semantically valid token lists; "
+        "C02_lalr_total; C02_lalr_no_error_recovery; C02_lalr_agrees_bounded is the same agreement evaluated on all "
+        "204205 sequences up to length 4 (a bounded regression test, not the proof). What remains a correspondence "
+        "matter is that the 60 lines of yyparse's control flow are as LalrEngine.v transcribes them and that each classified "
+        "action text means what act_name / act_open / act_scalar do: tied on every run by exhaustive enumeration of all viable token-kind prefixes (to length 5 quick / 7 thorough) with every one-token "
         "invalid extension, in several concrete spellings, overrides off/on, against the real library and against a "
         "reference parser written from the manual.",
-   note="grammar.c's LALR tables and bison's driver are modelled as a recursive-descent function performing the actions in "
-        "bison's order, not translated. Nesting beyond the parser stack limit (YYMAXDEPTH) is outside the theorems "
+   note="grammar.c's LALR tables and action texts are translated on every run (gen_grammar.py) and proved equivalent to the "
+        "recursive-descent model; bison's driver loop itself is transcribed by hand (LalrEngine.v); YYMAXDEPTH is not modelled. Nesting beyond the parser stack limit (YYMAXDEPTH) is outside the theorems "
         "(hypothesis max_nest <= NEST_LIMIT). Known finding F4: a mismatched STRING element is reported at the line of "
         "the following token (the theorem states exactly that position).",
-   technique="Coq proof (grammar as inductive relations and syntax trees; parser soundness, completeness with denotation, semantic-error characterisation and first-offending-token theorem for syntax errors by mutual induction) + exhaustive-bounded correspondence for syntax-error positions",
+   technique="Coq proof (grammar as inductive relations and syntax trees; parser soundness, completeness with denotation, semantic-error characterisation and first-offending-token theorem for syntax errors by mutual induction; simulation proof that bison's driver over the translator-regenerated LALR tables of grammar.c equals the model) + exhaustive-bounded correspondence for syntax-error positions",
    ref="5 (C02)"),
 }
 
